@@ -159,3 +159,25 @@ def check_class_wrapper(kind: int, keep: bool, trips: int, a: int, b: int, x: in
         if not keep:
             return isinstance(cur, cls) or type(cur).__name__ == cls.__name__
     return True
+
+
+def check_repickle_after_mutation(kind: int, keep: bool, x: int, delta: int) -> bool:
+    """
+    pre: 3 <= kind <= 5 and 0 <= x <= 2 and 1 <= delta <= 3
+    post: _
+    """
+    # a wrapper is a live view of its object, not a snapshot: after the object changed (a forwarded call may mutate
+    # it), reads through the wrapper and every *later* pickle of the same wrapper show the new state; copies made
+    # earlier keep the state they were made with
+    kind, x, delta = _conc(kind - 3, 2) + 3, _conc(x, 2), _conc(delta, 3)
+    ref = _exemplar(kind)
+    w = wrap_non_picklable_objects(ref, keep_wrapper=bool(keep))
+    first = pickle.loads(pickle.dumps(w))
+    old_a = ref.a
+    ref.a = old_a + delta
+    if not _same_behaviour(w, ref, x, "a") or not _same_behaviour(w, ref, x, "method"):
+        return False
+    second = pickle.loads(pickle.dumps(w))
+    if not _same_behaviour(second, ref, x, "a") or not _same_behaviour(second, ref, x, "method"):
+        return False
+    return first.a == old_a and isinstance(second, CloudpickledObjectWrapper) == bool(keep)
